@@ -80,6 +80,8 @@ enum Edit {
     RejectedOnBreakpointLine,
     /// a new line that brings DATA (the only DATA, for the programs that have none)
     AddData,
+    /// the first line typed again as it stands (an accepted edit like any other)
+    RetypeFirst,
 }
 
 const PROBES: [&str; 10] = ["CONT", "RETURN", "NEXT I", "READ Z: PRINT Z", "PRINT FNA(1)", "GOTO 10", "PRINT X;S$;A(1)", "LIST", "NEXT K", "Z(15)=7: PRINT Z(15);Z(20)"];
@@ -176,6 +178,7 @@ fn edit_line(p: &Prog, e: &Edit, bp: Option<u64>) -> Option<String> {
         Edit::DeleteDataLine => format!("{}", p.data_line?),
         Edit::DeleteDefLine => format!("{}", p.def_line?),
         Edit::AddData => "6 PRINT \"n\";: DATA 77".to_string(),
+        Edit::RetypeFirst => format!(" {}", p.lines[0]),
         Edit::Rejected => "35 PRINT \"".to_string(),
         Edit::RejectedOnBreakpointLine => format!("{} PRINT \"", bp?),
     })
@@ -201,6 +204,7 @@ pub fn run(thorough: bool) -> Report {
         Edit::Rejected,
         Edit::RejectedOnBreakpointLine,
         Edit::AddData,
+        Edit::RetypeFirst,
     ];
     let mut jobs = vec![];
     let progs = programs();
